@@ -491,7 +491,7 @@ theorem value_cmp_order_partial :
   refine ⟨?_, doubleLaws⟩
   intro m op x y h
   have := valuePair_conforms m op (.dbl x) (.dbl y) rfl rfl (by simp [trigTol, h])
-    (by simp [trigPromotion, promRank, numRank])
+    (by simp [trigPromotion, numRank])
     (by simp [getDouble]) (by simp [getDouble]) rfl
   simpa [valueOp, numRank, castNum] using this
 
@@ -504,7 +504,7 @@ theorem value_cmp_order_float_partial (m : Mode) (op : Op) (x y : D)
     (h : (op.isEqNe && tolClose x y) = false) :
     valuePair m op (.flt x) (.flt y) = .ok (six numLt numEq op x y) := by
   have := valuePair_conforms m op (.flt x) (.flt y) rfl rfl (by simpa [trigTol] using h)
-    (by simp [trigPromotion, promRank, numRank])
+    (by simp [trigPromotion, numRank])
     (by simp [getDouble]) (by simp [getDouble]) rfl
   simpa [valueOp, numRank, castNum] using this
 
@@ -518,14 +518,14 @@ theorem nan_unequal_to_everything (m : Mode) (op : Op) (b : Atom) (hb : isNumCls
   constructor
   · have := valuePair_conforms m op (.dbl .nan) b rfl (by cases b <;> simp_all [isNumCls, isUA])
       (by cases b <;> simp [trigTol, tolClose, (hc _).1])
-      (by cases b <;> simp [trigPromotion, promRank, numRank, exactVal, castNum])
+      (by cases b <;> simp [trigPromotion, numRank, exactVal, castNum])
       (by simp [getDouble]) hov
       (by cases b <;> rfl)
     rw [this]
     cases b <;> simp [isNumCls] at hb <;> simp [valueOp, numRank, castNum, (nan_six op _).1]
   · have := valuePair_conforms m op b (.dbl .nan) (by cases b <;> simp_all [isNumCls, isUA]) rfl
       (by cases b <;> simp [trigTol, tolClose, (hc _).2])
-      (by cases b <;> simp [trigPromotion, promRank, numRank, exactVal, castNum])
+      (by cases b <;> simp [trigPromotion, numRank, exactVal, castNum])
       hov (by simp [getDouble])
       (by cases b <;> rfl)
     rw [this]
@@ -542,7 +542,7 @@ theorem value_cmp_order_string :
   refine ⟨?_, listLaws⟩
   intro m op s t
   refine ⟨?_, ?_, ?_, ?_⟩ <;>
-  · rw [valuePair_conforms m op _ _ rfl rfl rfl (by simp [trigPromotion, promRank, numRank])
+  · rw [valuePair_conforms m op _ _ rfl rfl rfl (by simp [trigPromotion, numRank])
       (by simp [getDouble]) (by simp [getDouble]) rfl]
     simp [valueOp, numRank]
 
@@ -553,7 +553,7 @@ theorem value_cmp_order_boolean :
     OrderLawsOn (fun _ : Bool => True) (fun p q => !p && q) (fun p q => p == q) := by
   refine ⟨?_, boolLaws⟩
   intro m op x y
-  rw [valuePair_conforms m op _ _ rfl rfl rfl (by simp [trigPromotion, promRank, numRank])
+  rw [valuePair_conforms m op _ _ rfl rfl rfl (by simp [trigPromotion, numRank])
     (by simp [getDouble]) (by simp [getDouble]) rfl]
   simp [valueOp, numRank]
 
@@ -579,11 +579,11 @@ theorem value_cmp_order_temporal :
   · intro m op x y hx hy
     have h := dtFarOK_of_tzOK x y hx hy
     refine ⟨?_, ?_, ?_⟩ <;>
-    · rw [valuePair_conforms m op _ _ rfl rfl rfl (by simp [trigPromotion, promRank, numRank])
+    · rw [valuePair_conforms m op _ _ rfl rfl rfl (by simp [trigPromotion, numRank])
         (by simp [getDouble]) (by simp [getDouble]) (by simpa [dtConsistent, Atom.isDT, Atom.dt] using h)]
       simp [valueOp, numRank]
   · intro m op s t
-    rw [valuePair_conforms m op _ _ rfl rfl rfl (by simp [trigPromotion, promRank, numRank])
+    rw [valuePair_conforms m op _ _ rfl rfl rfl (by simp [trigPromotion, numRank])
       (by simp [getDouble]) (by simp [getDouble]) rfl]
     simp [valueOp, numRank]
 
@@ -616,7 +616,7 @@ theorem value_cmp_order_duration (m : Mode) (op : Op) :
     exact valuePair_conforms m op a b (by cases a <;> simp_all [Atom.isDur, isUA])
       (by cases b <;> simp_all [Atom.isDur, isUA])
       (by cases a <;> cases b <;> simp_all [Atom.isDur, trigTol])
-      (by cases a <;> cases b <;> simp_all [Atom.isDur, trigPromotion, promRank, numRank])
+      (by cases a <;> cases b <;> simp_all [Atom.isDur, trigPromotion, numRank])
       (by cases a <;> simp_all [Atom.isDur, getDouble]) (by cases b <;> simp_all [Atom.isDur, getDouble])
       (by cases a <;> cases b <;> simp_all [Atom.isDur, dtConsistent, Atom.isDT])
   refine ⟨?_, ?_, ?_⟩
@@ -640,7 +640,7 @@ theorem value_cmp_order_binary :
   refine ⟨?_, listLaws⟩
   intro m op x y h
   constructor <;>
-  · rw [valuePair_conforms m op _ _ rfl rfl rfl (by simp [trigPromotion, promRank, numRank])
+  · rw [valuePair_conforms m op _ _ rfl rfl rfl (by simp [trigPromotion, numRank])
       (by simp [getDouble]) (by simp [getDouble]) rfl]
     rcases h with h | h
     · cases op <;> simp_all [valueOp, numRank, Op.isEqNe, isEqNe]
